@@ -142,14 +142,28 @@ Definition has_cycle (s : schema) : bool :=
   || existsb (fun a => existsb (cp_nesting_cyclic s (S (length (checkpoints s))) []) (action_cps s a)) (actions s).
 
 (* ------------------------------------------------------------------ ancestry search *)
-(* is b among the ancestors of the holder of checkpoints cps ?  (depth-first, fuel = path length) *)
-Fixpoint reaches (s : schema) (fuel : nat) (b : nat) (a : nat) : bool :=
-  match fuel with
-  | 0 => false
-  | S f => existsb (fun x => Nat.eqb x b || reaches s f b x) (succ s a)
+(* ancestors of an action: closure of the direct dependencies, computed by iterating
+   acc := acc U succ(acc) a fixed number of times (|actions| rounds reach every ancestor) *)
+Fixpoint union_nat (a b : list nat) : list nat :=
+  match b with
+  | [] => a
+  | x :: r => if mem_nat x a then union_nat a r else union_nat (a ++ [x]) r
   end.
 
-Definition is_ancestor (s : schema) (a b : nat) : bool := reaches s (S (length (actions s))) b a.
+Fixpoint close (s : schema) (rounds : nat) (acc : list nat) : list nat :=
+  match rounds with
+  | 0 => acc
+  | S r => close s r (union_nat acc (flat_map (succ s) acc))
+  end.
+
+Definition ancestors (s : schema) (a : nat) : list nat :=
+  close s (length (actions s)) (union_nat [] (succ s a)).
+
+Definition is_ancestor (s : schema) (a b : nat) : bool := mem_nat b (ancestors s a).
+
+(* ancestors of a thread group: through the checkpoints of the group and of every enclosing group *)
+Definition group_ancestors (s : schema) (g : nat) : list nat :=
+  close s (length (actions s)) (union_nat [] (flat_map (mentions s (fuel_of s)) (group_eff_cps s g))).
 
 (* guaranteed ancestry: every branch of an OR gate must lead to b *)
 Fixpoint guar_cp (s : schema) (fuel : nat) (b : nat) (c : nat) : bool :=
@@ -358,13 +372,53 @@ Definition is_lit (o : operand) : bool := match o with OLit _ => true | _ => fal
 Definition list_nat_eqb (a b : list nat) : bool :=
   Nat.eqb (length a) (length b) && forallb (fun p => Nat.eqb (fst p) (snd p)) (combine a b).
 
+(* do two literals denote the same JSON value?  (the renderer derives the value from shape and tag:
+   null and [] ignore the tag, booleans use its parity) *)
+Definition lit_same_value (x y : lit) : bool :=
+  ishape_eqb (l_shape x) (l_shape y) &&
+  match l_shape x with
+  | SNull | SEmpty | SMixed | SNulls | SNested | SObj => true
+  | SBool | SBools => Bool.eqb (Nat.even (l_tag x)) (Nat.even (l_tag y))
+  | _ => Nat.eqb (l_tag x) (l_tag y)
+  end.
+
 Definition operand_eqb (a b : operand) : bool :=
   match a, b with
   | OAct x p, OAct y q => ref_eqb x y && list_nat_eqb p q
   | OVar x p, OVar y q => Nat.eqb x y && list_nat_eqb p q
-  | OLit x, OLit y => ishape_eqb (l_shape x) (l_shape y) && Nat.eqb (l_tag x) (l_tag y)
+  | OLit x, OLit y => lit_same_value x y
   | _, _ => false
   end.
+
+Definition dep_eqb (a b : dep) : bool :=
+  match a, b with
+  | DCmp l o r, DCmp l' o' r' => operand_eqb l l' && cop_eqb o o' && operand_eqb r r'
+  | DRef c, DRef c' => ref_eqb c c'
+  | _, _ => false
+  end.
+
+(* equality of dependency lists as multisets *)
+Fixpoint remove_first (d : dep) (l : list dep) : option (list dep) :=
+  match l with
+  | [] => None
+  | x :: r => if dep_eqb d x then Some r else match remove_first d r with Some r' => Some (x :: r') | None => None end
+  end.
+Fixpoint msub (a b : list dep) : bool :=
+  match a with
+  | [] => true
+  | x :: r => match remove_first x b with Some b' => msub r b' | None => false end
+  end.
+Definition deps_same (a b : list dep) : bool := Nat.eqb (length a) (length b) && msub a b.
+
+Definition gate_opt_eqb (a b : option gate) : bool :=
+  match a, b with Some x, Some y => gate_eqb x y | None, None => true | _, _ => false end.
+
+(* the composite uniqueness key of checkpoints: gate type and the SET of dependencies *)
+Definition composite_eqb (c1 c2 : checkpoint) : bool :=
+  gate_opt_eqb (cp_gate c1) (cp_gate c2) && deps_same (cp_deps c1) (cp_deps c2).
+
+Fixpoint nodup_by {A} (eqb : A -> A -> bool) (l : list A) : bool :=
+  match l with [] => true | x :: r => negb (existsb (eqb x) r) && nodup_by eqb r end.
 
 Definition comparison_ok (cmp : ty -> cop -> ty -> bool) (s : schema) (cctx : option nat) (l : operand) (o : cop) (r : operand) : bool :=
   negb (is_lit l && is_lit r) && negb (operand_eqb l r) &&
@@ -559,9 +613,7 @@ Definition group_ok (s : schema) (g : tgroup) : bool :=
   | SpPromise p _ =>
     ref_ok s RPromise p &&
     match fulfiller s (r_id p) with
-    | Some f => existsb (fun c => existsb (fun x => Nat.eqb x (a_id f) || reaches s (S (length (actions s))) (a_id f) x)
-                                          (mentions s (fuel_of s) c))
-                        (group_eff_cps s (g_id g))
+    | Some f => mem_nat (a_id f) (group_ancestors s (g_id g))
     | None => false end
   | SpVar _ _ => true
   end &&
@@ -594,6 +646,7 @@ Definition unique_ids (s : schema) : bool :=
   nodup_nat (map a_id (actions s)) && nodup_nat (map a_name (actions s)) &&
   nodup_nat (flat_map a_milestones (actions s)) &&
   nodup_nat (map cp_id (checkpoints s)) && nodup_nat (map cp_alias (checkpoints s)) &&
+  nodup_by composite_eqb (checkpoints s) &&
   nodup_nat (map g_id (groups s)) && nodup_nat (map g_name (groups s)).
 
 (* ------------------------------------------------------------------ the verdict *)
